@@ -697,7 +697,7 @@ pub(crate) fn run(opts: &Opts, report: &mut Report) {
     const MUT: usize = 4;
     // items 0..MUT: the mutation cases; items MUT..: the pool / relay search
     let n_items = MUT + SHARDS;
-    let max_depth = if thorough { 6 } else { 4 };
+    let max_depth = if thorough { 5 } else { 4 };
     let worker = crate::verif::props::shard::run("C18", opts, report, n_items, 16, |item, report| {
         let env = Env::dummy();
         let chain = build_chain(&env);
